@@ -21,6 +21,9 @@ Whole == StreamNorm(WholeRaw)
 CutInvisible == StreamClean(WholeRaw, Len(Z)) =>
                 /\ \A p \in 1..(Len(Z) - 1) : StreamNorm(Stream(F0, Z, <<p>>)) = Whole
                 /\ TwoCuts => \A p \in 1..(Len(Z) - 1) : \A q \in (p + 1)..(Len(Z) - 1) : StreamNorm(Stream(F0, Z, <<p, q>>)) = Whole
+\* C04: no call of the stream returns while a completed value is held only by the call's locals (it would be leaked, and
+\* neither json_tokener_reset nor json_tokener_free could release it)
+NothingLost == \A i \in 1..Len(WholeRaw) : ~WholeRaw[i].lost
 \* anti-vacuity: some stream in the space really has several documents
 SomeStream == ~(StreamClean(WholeRaw, Len(Z)) /\ Len(Whole) >= 4)
 ====
